@@ -2,6 +2,7 @@ import ParryModel.Proto
 import ParryModel.C08.Model
 import ParryModel.C08.Model2
 import ParryModel.C08.Model3
+import ParryModel.C08.Model5
 /-!
 C08 protocol handler.  One function `hist`: the arguments encode a whole operation history; the output is, after every
 operation, the delta of the complete tree state against the state after the previous operation (see `harness/src/c08.rs`).
@@ -20,6 +21,10 @@ inductive POp where
   | refit (m : Float)
   | rebalance (m : Float)
   | rebuild (items : List (Nat × Aabb3 Float)) (dil : Float)
+  /-- `clear_and_rebuild_with_splitter` with `CenterDataSplitter { enable_fallback_split: fb }` -/
+  | rebuildS (fb : Bool) (items : List (Nat × Aabb3 Float)) (dil : Float)
+  /-- … with `QbvhNonOverlappingDataSplitter` and the cutting callback (fresh ids from `base`, refusal modulus, epsilon) -/
+  | rebuildN (base refuse : Nat) (eps : Float) (items : List (Nat × Aabb3 Float)) (dil : Float)
 
 def pbox : P (Aabb3 Float) := do let a ← pv3; let b ← pv3; pure ⟨a, b⟩
 
@@ -34,6 +39,18 @@ def pop : P POp := do
       let items ← plist (do let id ← pnat; let b ← pbox; pure (id, b))
       let dil ← pf
       pure (.rebuild items dil)
+  | "S" => do
+      let fb ← pbool
+      let items ← plist (do let id ← pnat; let b ← pbox; pure (id, b))
+      let dil ← pf
+      pure (.rebuildS fb items dil)
+  | "N" => do
+      let base ← pnat
+      let refuse ← pnat
+      let eps ← pf
+      let items ← plist (do let id ← pnat; let b ← pbox; pure (id, b))
+      let dil ← pf
+      pure (.rebuildN base refuse eps items dil)
   | _ => failure
 
 def phist : P (List POp) := do let ops ← plist pop; pend; pure ops
@@ -67,7 +84,7 @@ def joinNat (xs : Array Nat) : String := " ".intercalate (xs.toList.map toString
 def joinBits (xs : Array UInt64) : String := " ".intercalate (xs.toList.map cf)
 
 /-- print the delta of `q` against the shadow; returns the text and the new shadow -/
-def dumpDelta (q : Q Float) (sh : Shadow) (op : String) (ret : Nat) : String × Shadow := Id.run do
+def dumpDelta (q : Q Float) (sh : Shadow) (op : String) (ret : Nat) (extra : List String := []) : String × Shadow := Id.run do
   let mut out : Array String := #[s!"{op} {ret} n {q.nodes.size} p {q.proxies.size}"]
   let mut sh := sh
   let r := boxKey q.rootAabb
@@ -99,6 +116,7 @@ def dumpDelta (q : Q Float) (sh : Shadow) (op : String) (ret : Nat) : String × 
       out := out.push s!"P {j} {joinNat t}"
       prox := if j < prox.size then prox.setIfInBounds j t else prox.push t
     j := j + 1
+  for e in extra do out := out.push e
   out := out.push (" ".intercalate ("D" :: toString q.dirtyNodes.length :: q.dirtyNodes.reverse.map toString))
   out := out.push (" ".intercalate ("F" :: toString q.freeList.length :: q.freeList.reverse.map toString))
   out := out.push ";"
@@ -107,13 +125,25 @@ def dumpDelta (q : Q Float) (sh : Shadow) (op : String) (ret : Nat) : String × 
 /-! ## the model leg -/
 
 /-- one operation of the model: new world and the printed return value, `none` = panic / hang -/
-def stepModel (w : World Float) : POp → Option (World Float × String × Nat)
+def cutItems (cuts : List (Nat × Aabb3 Float)) : List String :=
+  cuts.map fun (id, b) => s!"K {id} {joinBits (boxKey b)}"
+
+/-- one operation of the model, also returning the `K` items of a cutting build -/
+def stepModelX (w : World Float) : POp → Option (World Float × String × Nat × List String)
+  | .rebuildS fb items dil =>
+    (rebuildG (.center fb) 0 w.q items dil).map fun r => (⟨r.1, curAfter items w.cur⟩, "S", 0, [])
+  | .rebuildN base refuse eps items dil =>
+    (rebuildG (.cutting eps refuse) base w.q items dil).map fun r =>
+      (⟨r.1, curAfterCuts r.2 (curAfter items w.cur)⟩, "N", 0, cutItems r.2)
   | .ins id b =>
-    (preUpdateOrInsert useFix w.q id).map fun q' => (⟨q', fun d => if d = id then b else w.cur d⟩, "I", 0)
-  | .rem id => (remove w.q id).map fun r => (⟨r.1, w.cur⟩, "R", if r.2 then 1 else 0)
-  | .refit m => (refit w.q w.cur m).map fun r => (⟨r.1, w.cur⟩, "F", r.2)
-  | .rebalance m => (rebalance w.q m).map fun q' => (⟨q', w.cur⟩, "B", 0)
-  | .rebuild items dil => (rebuild w.q items dil).map fun q' => (⟨q', curAfter items w.cur⟩, "C", 0)
+    (preUpdateOrInsert useFix w.q id).map fun q' => (⟨q', fun d => if d = id then b else w.cur d⟩, "I", 0, [])
+  | .rem id => (remove w.q id).map fun r => (⟨r.1, w.cur⟩, "R", if r.2 then 1 else 0, [])
+  | .refit m => (refit w.q w.cur m).map fun r => (⟨r.1, w.cur⟩, "F", r.2, [])
+  | .rebalance m => (rebalance w.q m).map fun q' => (⟨q', w.cur⟩, "B", 0, [])
+  | .rebuild items dil => (rebuild w.q items dil).map fun q' => (⟨q', curAfter items w.cur⟩, "C", 0, [])
+
+def stepModel (w : World Float) (op : POp) : Option (World Float × String × Nat) :=
+  (stepModelX w op).map fun (w', n, r, _) => (w', n, r)
 
 /-- final world of the model, `none` on panic -/
 def finalModel (ops : List POp) : Option (World Float) :=
@@ -124,12 +154,12 @@ def runModel (ops : List POp) : String := Id.run do
   let mut sh : Shadow := {}
   let mut out : Array String := #[]
   for op in ops do
-    match stepModel w op with
+    match stepModelX w op with
     | none =>
       out := out.push "PANIC ;"
       break
-    | some (w', name, ret) =>
-      let (s, sh') := dumpDelta w'.q sh name ret
+    | some (w', name, ret, extra) =>
+      let (s, sh') := dumpDelta w'.q sh name ret extra
       out := out.push s
       sh := sh'
       w := w'
@@ -179,6 +209,7 @@ partial def applyItems (q : Q Float) : List String → Option (Q Float)
     match ns with
     | [i, nd, ln, dt] => applyItems { q with proxies := q.proxies.setIfInBounds i ⟨nd, ln, dt⟩ } (rest.drop 4)
     | _ => none
+  | "K" :: rest => applyItems q (rest.drop 7)
   | "D" :: rest => do
     let k ← (rest.head?).bind String.toNat?
     let ds ← natsOf ((rest.drop 1).take k)
@@ -246,31 +277,61 @@ def judgeState (s : Q Float) (cur : Nat → Aabb3 Float) (live : List Nat) (afte
     else none
   else none
 
-def runOracle (ops : List POp) (out : List String) : String := Id.run do
-  let segs := splitSegs out
-  if segs.length != ops.length then
-    if out.contains "PANIC" then return s!"fail panic op={segs.length - 1}"
-    return "fail unparsable-output segment-count"
+/-- the `K <id> <box>` items of one dump segment: the user's record of the pieces of a cutting build, in callback order -/
+def cutsOfSeg : List String → List (Nat × Aabb3 Float)
+  | [] => []
+  | "K" :: id :: rest =>
+    match id.toNat?, floatsOf (rest.take 6) with
+    | some i, some fs => (i, box6 fs) :: cutsOfSeg rest
+    | _, _ => cutsOfSeg rest
+  | _ :: rest => cutsOfSeg rest
+
+/-- `l`, `r` are exactly the two pieces of `b` cut by an axis-aligned plane strictly inside `b`: the negative-side piece
+keeps `mins`, the positive-side piece keeps `maxs`, they meet on one coordinate plane and agree with `b` elsewhere -/
+def isPlaneCut (b l r : Aabb3 Rat) : Bool :=
+  let eqV (a c : V3 Rat) : Bool := decide (a.x = c.x) && decide (a.y = c.y) && decide (a.z = c.z)
+  eqV l.mins b.mins && eqV r.maxs b.maxs &&
+  [0, 1, 2].any fun ax =>
+    let s := l.maxs.get ax
+    decide (r.mins.get ax = s) && decide (b.mins.get ax < s) && decide (s < b.maxs.get ax) &&
+    [0, 1, 2].all fun o => o == ax || (decide (l.maxs.get o = b.maxs.get o) && decide (r.mins.get o = b.mins.get o))
+
+/-- the pieces recorded by the callback, pair by pair: the first keeps the id of a live leaf and, together with the
+second (a fresh id), tiles that leaf's current box exactly; returns the updated boxes and live set -/
+def applyCuts : List (Nat × Aabb3 Float) → (Nat → Aabb3 Float) → List Nat → Except String ((Nat → Aabb3 Float) × List Nat)
+  | (i, l) :: (j, r) :: rest, cur, live =>
+    if !live.contains i then .error s!"cut-of-a-dead-leaf {i}"
+    else if live.contains j then .error s!"piece-id-not-fresh {j}"
+    else if !(finiteBox l && finiteBox r) then .error s!"nonfinite-piece {i}"
+    else if !isPlaneCut (⟨q3 (cur i).mins, q3 (cur i).maxs⟩) ⟨q3 l.mins, q3 l.maxs⟩ ⟨q3 r.mins, q3 r.maxs⟩ then .error s!"pieces-do-not-tile-the-leaf {i} {j}"
+    else applyCuts rest (fun d => if d = j then r else if d = i then l else cur d) (j :: live)
+  | [_], _, _ => .error "odd-number-of-pieces"
+  | [], cur, live => .ok (cur, live)
+
+/-- final Rust state, current boxes and live set of a dumped history, or the first failure -/
+def runOracleCore (ops : List POp) (segs : List (List String)) : Except String (Q Float × (Nat → Aabb3 Float) × List Nat × Bool) := do
   let mut s : Q Float := Q.empty
   let mut cur : Nat → Aabb3 Float := fun _ => invalidBox
   let mut live : List Nat := []
   let mut k := 0
-  -- `rebalance` "assumes that the leaf AABBs have already been updated with `refit`": after a call with a pending
-  -- `dirty_nodes` list only the structure is promised (`rebalance_preserves_inv`), so the box clauses are not demanded
-  -- until the next `clear_and_rebuild` rebuilds every box
   let mut tainted := false
+  let mut settled := false
   for (op, seg) in ops.zip segs do
-    if seg == ["PANIC"] then return s!"fail panic op={k}"
+    if seg == ["PANIC"] then throw s!"fail panic op={k}"
     let pendingBefore := !s.dirtyNodes.isEmpty
     match applySegment s seg with
-    | none => return s!"fail unparsable-output op={k}"
+    | none => throw s!"fail unparsable-output op={k}"
     | some (s', _) =>
       s := s'
       match op with
       | .rebalance _ => if pendingBefore then tainted := true
       | .rebuild _ _ => tainted := false
+      | .rebuildS _ _ _ => tainted := false
+      | .rebuildN _ _ _ _ _ => tainted := false
       | _ => pure ()
       let mut afterRefit := false
+      let setItems := fun (items : List (Nat × Aabb3 Float)) (c : Nat → Aabb3 Float) =>
+        items.foldl (fun c (it : Nat × Aabb3 Float) => fun d => if d = it.1 then it.2 else c d) c
       match op with
       | .ins id b =>
         cur := (fun c d => if d = id then b else c d) cur
@@ -280,14 +341,34 @@ def runOracle (ops : List POp) (out : List String) : String := Id.run do
       | .rebalance _ => afterRefit := s.dirtyNodes.isEmpty
       | .rebuild items _ =>
         live := (items.map (·.1)).eraseDups
-        for (id, b) in items do
-          cur := (fun c d => if d = id then b else c d) cur
+        cur := setItems items cur
         afterRefit := s.dirtyNodes.isEmpty
-      match judgeState s cur live (afterRefit && !tainted) with
-      | some why => return s!"fail {why} op={k}"
+      | .rebuildS _ items _ =>
+        live := (items.map (·.1)).eraseDups
+        cur := setItems items cur
+        afterRefit := s.dirtyNodes.isEmpty
+      | .rebuildN _ _ _ items _ =>
+        live := (items.map (·.1)).eraseDups
+        cur := setItems items cur
+        match applyCuts (cutsOfSeg seg) cur live with
+        | .error why => throw s!"fail {why} op={k}"
+        | .ok (c, l) => cur := c; live := l
+        afterRefit := s.dirtyNodes.isEmpty
+      settled := afterRefit && !tainted
+      match judgeState s cur live settled with
+      | some why => throw s!"fail {why} op={k}"
       | none => pure ()
     k := k + 1
-  return "pass"
+  return (s, cur, live, settled)
+
+def runOracle (ops : List POp) (out : List String) : String :=
+  let segs := splitSegs out
+  if segs.length != ops.length then
+    if out.contains "PANIC" then s!"fail panic op={segs.length - 1}"
+    else "fail unparsable-output segment-count"
+  else match runOracleCore ops segs with
+    | .error why => why
+    | .ok _ => "pass"
 
 def pquery : P (List POp × Aabb3 Float) := do let ops ← plist pop; let b ← pbox; pend; pure (ops, b)
 
@@ -303,6 +384,9 @@ def liveAfter (ops : List POp) : List (Nat × Aabb3 Float) :=
     | .ins id b => (id, b) :: acc.filter (·.1 != id)
     | .rem id => acc.filter (·.1 != id)
     | .rebuild items _ => items.foldl (fun a it => it :: a.filter (·.1 != it.1)) []
+    | .rebuildS _ items _ => items.foldl (fun a it => it :: a.filter (·.1 != it.1)) []
+    -- the pieces of a cutting build are not known from the arguments alone: `bquery` reads them from the dump
+    | .rebuildN _ _ _ items _ => items.foldl (fun a it => it :: a.filter (·.1 != it.1)) []
     | _ => acc) []
 
 /-- oracle for `query`: after a history ending with `refit`, `intersect_aabb` must report every live leaf whose
